@@ -259,6 +259,43 @@ func c17clone(c *core.Ctx) {
 		diff = core.F("different number of cases (%d vs %d)", len(ta), len(tb))
 	}
 	c.Check(diff == "", R, "newEnumItem=NewEnumItem", c.P.Pos(a.Pos()), core.F("enum.newEnumItem ≡ constraint.NewEnumItem as symbolic functions (%d paths each)", len(ta)), "the duplicate keys of rule files and inline enums diverge: "+diff)
+	// the duplicate-tracking maps on both sides must be keyed by the WHOLE item <value, jsonType>
+	for _, fld := range []struct{ pkg, typ, field string }{{"rules/enum", "scanner", "uniqueValues"}, {"notations/jschema/ischema/constraint", "Enum", "uniqueIdx"}} {
+		nt := c.P.NamedType(fld.pkg, fld.typ)
+		if nt == nil {
+			c.Unresolved(R, fld.pkg+"."+fld.typ)
+			continue
+		}
+		st := nt.Underlying().(*types.Struct)
+		found := false
+		for i := 0; i < st.NumFields(); i++ {
+			if st.Field(i).Name() != fld.field {
+				continue
+			}
+			found = true
+			ok := false
+			keyDesc := st.Field(i).Type().String()
+			if mt, isMap := st.Field(i).Type().Underlying().(*types.Map); isMap {
+				if ks, isStruct := mt.Key().Underlying().(*types.Struct); isStruct {
+					hasV, hasT := false, false
+					for j := 0; j < ks.NumFields(); j++ {
+						switch ks.Field(j).Name() {
+						case "value":
+							hasV = true
+						case "jsonType":
+							hasT = true
+						}
+					}
+					ok = hasV && hasT
+				}
+			}
+			c.Check(ok, R, fld.typ+"."+fld.field+":key", c.P.Pos(st.Field(i).Pos()), core.F("%s.%s is keyed by the whole item <value, jsonType> (%s)", fld.typ, fld.field, core.Rel(keyDesc)),
+				"duplicates are tracked by something else than <unquoted value, JSON kind>: a string and a non-string entry with the same spelling (\"5\" and 5, \"true\" and true) are reported as duplicates in a rule file although the same list is accepted inline (or the other way round)")
+		}
+		if !found {
+			c.Unresolved(R, fld.typ+"."+fld.field)
+		}
+	}
 }
 
 func c17nopanic(c *core.Ctx) {
